@@ -17,6 +17,7 @@ pub fn meta() -> Meta {
         rule: "exhaustive for n=3, all 6 orders, BDD and BCDD: exists/forall/unique for all 256 f x all 8 variable subsets; restrict for all 256 f x all 27 literal cubes (also ZBDD); memoisation histories of length two: every ordered pair of distinct requests among the 26 restrictions and 21 quantifications, first request issued for all 256 f on an emptied cache, then the second one checked for all 256 f; apply_exists/forall/unique for all 8 operators x all 8 subsets x pairs (quick: 64x64 closed subset, thorough: all 65536); substitute for all 256 f x all 13^3 replacement vectors (each variable unlisted or replaced by one of 12 functions), vector-major with a fresh Subst per vector and f-major with persistent Subst objects used alternately with gc in between, each answer repeated and compared. thorough adds n=4 unary quantifier/restrict block. Non-trivial: f non-constant and the variable set / cube / substitution non-empty.",
         assumptions: vec![
             "ZBDD implements neither BooleanFunctionQuant nor FunctionSubst; only restrict is checked for it".into(),
+            "substitute keys its cache by the substitution id: uniqueness of the ids under concurrent Subst::new() is model-checked with loom on the generator's code (derived from oxidd-core/src/util/substitution.rs at build time): 2 threads x 2 ids unbounded, 3 threads with preemption bound 3".into(),
             "random instances over 5..8 variables not enumerated".into(),
         ],
         hang_is_violation: false,
@@ -53,6 +54,8 @@ pub fn shards(tier: &str) -> Vec<String> {
             }
         }
     }
+    // substitution ids are part of the cache key of `substitute`: loom model of the id generator
+    v.extend(super::loomx::substid_shards());
     if tier == "thorough" {
         for k in ["bdd", "bcdd"] {
             for o in ["0123", "3210", "2031"] {
@@ -153,6 +156,9 @@ fn nc(t: Tab, n: u32) -> bool {
 
 pub fn run(ctx: &mut Ctx) {
     let shard = ctx.shard.clone();
+    if shard.starts_with("loom:") {
+        return super::loomx::run_substid(ctx);
+    }
     let p: Vec<&str> = shard.split(':').collect();
     let order = model::parse_order(p[1]);
     let tc = ThreadCfg::parse(p[3]);
